@@ -82,13 +82,30 @@ void function_level(vf::Ctx& c)
     for (std::size_t step = 0; step != chain; ++step)
     {
         std::vector<T> data(n);
-        std::size_t const dcls = t.pick(6);
+        std::size_t const dcls = t.pick(7);
+        bool extreme = false;
         switch (dcls)
         {
         case 0: break; // all zero
         case 1: data[t.pick(n)] = vf::gen_real<T>(t, 0u, 6); break;
         case 2: { T const v = vf::gen_real<T>(t, 0u, 6); for (auto& x : data) { x = v; } break; }
         case 3: for (auto& x : data) { x = static_cast<T>(t.unit()); } break;
+        case 4:
+        {
+            // extreme spread: products w * W^beta from just above the smallest normal number to just below
+            // max / n - the share of a small channel underflows to zero, yet the channel is enabled and must get the floor
+            extreme = true;
+            long double const lo = static_cast<long double>(std::numeric_limits<T>::min()) * 1024, hi = static_cast<long double>(std::numeric_limits<T>::max()) / (4096.0L * n);
+            for (std::size_t i = 0; i != n; ++i)
+            {
+                if (!(w[i] > T(0))) { data[i] = T(1); continue; }
+                long double const target = (t.pick(3) == 0) ? lo : ((t.pick(2) == 0) ? hi : 1.0L);
+                long double const datum = std::pow(target / static_cast<long double>(w[i]), 1.0L / static_cast<long double>(beta));
+                data[i] = static_cast<T>(datum);
+                if (!std::isfinite(data[i]) || !(data[i] > T(0)) || data[i] < std::numeric_limits<T>::min()) { data[i] = T(1); }
+            }
+            break;
+        }
         default:
         {
             for (auto& x : data)
@@ -100,7 +117,8 @@ void function_level(vf::Ctx& c)
             break;
         }
         }
-        for (auto& x : data) { clampv(x); }
+        if (!extreme) { for (auto& x : data) { clampv(x); } }
+        if (extreme) { c.label("extreme-spread-data"); }
         c.desc << (step ? ";" : "") << vf::show(data, 12);
 
         std::vector<T> const r = hep::multi_channel_refine_weights(w, data, minw, beta);
@@ -226,6 +244,33 @@ void run_level(vf::Ctx& c)
             VF_CHECK(c, (w0[i] == T(0)) == (prev[i] == T(0)), "C08:initial-disabled", "initial weights " << vf::show(prev) << " for user weights " << vf::show(w0));
         }
     }
+    // the initial weights pass through the same routine (unit data): every enabled channel is raised to the floor
+    {
+        long double const floor = static_cast<long double>(minw) / (1.0L + channels * static_cast<long double>(minw)) * (1.0L - 8 * vf::eps<T>());
+        for (std::size_t i = 0; i != channels; ++i)
+        {
+            if (prev[i] > T(0))
+            {
+                VF_CHECK(c, static_cast<long double>(prev[i]) >= floor, "C08:initial-floor", "initial weight " << vf::show(prev[i]) << " of channel " << i
+                    << " is below min/(1+n*min) = " << vf::show<long double>(floor) << " (minimum weight " << vf::show(minw) << ")");
+            }
+        }
+        if (user_weights)
+        {
+            // and they are the user's weights normalised, clamped, normalised
+            long double tot = 0;
+            for (auto x : w0) { tot += x; }
+            std::vector<long double> u(channels, 0.0L);
+            long double usum = 0;
+            for (std::size_t i = 0; i != channels; ++i) { if (w0[i] > T(0)) { u[i] = std::max<long double>(static_cast<long double>(w0[i]) / tot, minw); usum += u[i]; } }
+            for (std::size_t i = 0; i != channels; ++i)
+            {
+                long double const ref = u[i] / usum;
+                VF_CHECK(c, std::fabs(static_cast<long double>(prev[i]) - ref) <= (8.0L + 2 * channels) * vf::eps<T>() * ref + 4 * std::numeric_limits<T>::min(), "C08:initial-model",
+                    "initial weight of channel " << i << " is " << vf::show(prev[i]) << ", the user's weights normalised and raised to the minimum give " << vf::show<long double>(ref));
+            }
+        }
+    }
     bool changed = false, zero_info = false;
     std::size_t disabled = 0;
     for (auto x : prev) { if (x == T(0)) { ++disabled; } }
@@ -234,6 +279,21 @@ void run_level(vf::Ctx& c)
         auto const& res = result.results()[k];
         std::vector<T> const& wk = res.channel_weights();
         check_vector(c, wk, prev, "weights recorded in a result");
+        if (k > 0)
+        {
+            auto const& before = result.results()[k - 1];
+            bool any = false;
+            for (std::size_t i = 0; i != channels; ++i) { if (before.channel_weights()[i] > T(0) && before.adjustment_data()[i] > T(0)) { any = true; } }
+            long double const floor = static_cast<long double>(minw) / (1.0L + channels * static_cast<long double>(minw)) * (1.0L - 8 * vf::eps<T>());
+            for (std::size_t i = 0; any && i != channels; ++i)
+            {
+                if (before.channel_weights()[i] > T(0) && before.adjustment_data()[i] > T(0))
+                {
+                    VF_CHECK(c, static_cast<long double>(wk[i]) >= floor, "C08:run-floor", "iteration " << k << ": channel " << i << " has weight " << vf::show(wk[i])
+                        << " below min/(1+n*min) = " << vf::show<long double>(floor) << " although its datum " << vf::show(before.adjustment_data()[i]) << " is positive");
+                }
+            }
+        }
         if (!vf::same_bits(wk, prev)) { changed = true; }
         bool info = false;
         for (std::size_t i = 0; i != channels; ++i) { if (wk[i] > T(0) && res.adjustment_data()[i] > T(0)) { info = true; } }
